@@ -3,6 +3,7 @@ import GormModel.Model.Migrate
 open Lean
 namespace Gorm.Drv
 open Gorm.Mig
+namespace HC20
 
 def oStr (j : Json) (k : String) : Option Str := (j.getObjVal? k).toOption >>= jStr? |>.map String.toList
 def oBool (j : Json) (k : String) : Option Bool := (j.getObjVal? k).toOption >>= jBool?
@@ -76,6 +77,8 @@ def parseEntry (j : Json) : Option IdxEntry := do
   some { name := ← oStr j "name", cls := ← oStr j "class", typ := ← oStr j "type", whr := ← oStr j "where",
          comment := ← oStr j "comment", option := ← oStr j "option", field := ← oStr j "field", priority := ← oInt j "priority" }
 
+end HC20
+open HC20 in
 /-- ops:
     ["mig.column", field, col]            -> {"acts":[…], "full": lower-cased full type, "trace":{…}}
     ["mig.auto", model, table|null]       -> [[kind, name]…]   (one AutoMigrate iteration for one model)
